@@ -426,6 +426,9 @@ def cli(argv=None, mode='output'):
             opb = args.generator.build_formula(args, formula_class=OPB)
         except (CLIError, ValueError) as e:
             args.generator.subparser.error(e)
+        except OverflowError as e:
+            args.generator.subparser.error(
+                "The requested formula is too large: {}".format(e))
         except RuntimeError as e:
             raise InternalBug(e) from e
 
